@@ -2165,11 +2165,16 @@ func (d *Data) ReceiveBlocks(ctx *datastore.VersionedCtx, r io.ReadCloser, scale
 			numBytes := int(binary.LittleEndian.Uint32(hdrBytes[12:16]))
 			bcoord := dvid.ChunkPoint3d{bx, by, bz}.ToIZYXString()
 			tk := NewBlockTKeyByCoord(scale, bcoord)
-			compressed := make([]byte, numBytes)
-			n, readErr = io.ReadFull(r, compressed)
+			// The length is declared by the client: grow the buffer as bytes actually arrive
+			// instead of allocating up to 4 GB for a 16-byte request.
+			var buf bytes.Buffer
+			var nread int64
+			nread, readErr = io.CopyN(&buf, r, int64(numBytes))
+			n = int(nread)
 			if n != numBytes || (readErr != nil && readErr != io.EOF) {
 				return fmt.Errorf("error reading %d bytes for block %s: %d read (%v)", numBytes, bcoord, n, readErr)
 			}
+			compressed := buf.Bytes()
 
 			if scale == 0 {
 				if mod := d.blockChangesExtents(&extents, bx, by, bz); mod {
